@@ -55,6 +55,8 @@ def gen(kind, t):
     add('default', '%s& b' % B, 'b = %s();' % B, spec='makeEmpty')
     add('ctor_pt', '%s& b, const %s& p' % (B, V), 'b = %s(p);' % B, spec='ctor_pt')
     add('ctor_mm', '%s& b, const %s& p, const %s& q' % (B, V, V), 'b = %s(p, q);' % B, spec='ctor_mm')
+    add('eq', 'bool& o, const %s& a, const %s& b' % (B, B), 'o = (a == b);', spec='eq')
+    add('ne', 'bool& o, const %s& a, const %s& b' % (B, B), 'o = (a != b);', spec='ne')
     add('size', '%s& o, const %s& b' % (V, B), 'o = b.size();', spec='size')
     add('center', '%s& o, const %s& b' % (V, B), 'o = b.center();', spec='center')
     if kind != 'I':
@@ -152,6 +154,14 @@ def check_kind(rep, R, tu, kind, t):
                 # symmetry: swapping the operands gives the same decision DAG
                 sw = T.subst(g, dict([(a, b) for a, b in zip(amn + amx, bmn + bmx)] + [(b, a) for a, b in zip(amn + amx, bmn + bmx)]))
                 # (subst is simultaneous because it maps original nodes only)
+            elif sp in ('eq', 'ne'):
+                # equal exactly when min and max agree in every component (each component linked with its counterpart only)
+                amn, amx = box_slots('a1', n, t); bmn, bmx = box_slots('a2', n, t)
+                g = bool_of(S.out('a0', 0, 1, 'i8'))
+                def spec(env, Rk, want=(sp == 'eq')):
+                    same = all(Rk(x) == Rk(y) for x, y in zip(amn + amx, bmn + bmx))
+                    return [same == want]
+                check_ord(rep, oid, where, [g], spec, links=[(x, y) for x, y in zip(amn + amx, bmn + bmx)])
             elif sp in ('extend_pt', 'extend_box'):
                 mn, mx = box_slots('a0', n, t)
                 if sp == 'extend_pt':
